@@ -8,7 +8,7 @@ def tempo_vs_pt(inp):
     sx, sy, sz = [oqupy.operators.sigma(c) for c in 'xyz']
     corr = oqupy.PowerLawSD(alpha=0.12, zeta=1.0, cutoff=3.0, cutoff_type='exponential', temperature=0.3)
     rho0 = oqupy.operators.spin_dm('y+')
-    for O, unique in ((0.5 * sz, False), (0.5 * sz, True), (0.3 * sx + 0.4 * sz, False)):
+    for O, unique in ((0.5 * sz, False), (0.5 * sz, True), (0.3 * sx + 0.4 * sz, False), (0.3 * sx + 0.2 * sy + 0.4 * sz, True)):
         for K, tau in ((None, None), (2, 0.2), (3, None), (2, np.inf)):
             par = oqupy.TempoParameters(dt=0.1, dkmax=K, epsrel=1e-9, add_correlation_time=tau)
             bath = oqupy.Bath(O, corr)
